@@ -24,7 +24,7 @@ MethodFeatures == {"m_sstream", "m_cstream", "m_bidi", "m_lro", "m_lro_empty", "
                    "m_kw", "m_unsafe", "m_dep_request", "m_raw_operation"}
 HttpFeatures == {"h_none", "h_additional", "h_nested_var", "h_body_star", "h_verbs"}
 ResourceFeatures == {"r_resource", "r_multi_pattern", "r_wildcard", "r_file_level", "r_child_ref"}
-SurfaceFeatures == {"s_two_services", "s_flatten", "s_required", "s_uuid4", "s_routing"}
+SurfaceFeatures == {"s_two_services", "s_flatten", "s_required", "s_uuid4", "s_routing", "s_api_version"}
 OptionFeatures == {"o_rest", "o_grpc_rest", "o_numeric", "o_metadata", "o_nosnippets", "o_iam", "o_ads", "o_mixins", "o_rest_async"}
 AllFeatures == FieldFeatures \cup MethodFeatures \cup HttpFeatures \cup ResourceFeatures \cup SurfaceFeatures \cup OptionFeatures
 
